@@ -192,7 +192,43 @@ def walk_property(run):
             "from the initial tree" % pid)
 
 
+C12_CFG = """CONSTANT Dev <- {dev}
+CONSTANT Files <- MCFiles
+CONSTANT Seps <- MCSeps
+CONSTANT PrefixSrcs <- MCPrefixSrcs
+CONSTANT Spellings <- MCSpellings
+CONSTANT Modes <- MCModes
+CONSTANT ModDocs <- MCModDocs
+CONSTANT HeaderLists <- MCHeaders
+INIT Init
+NEXT Next
+{invs}
+"""
+
+
+def c12(run):
+    import naming
+    q = run.tier == "quick"
+    invs = ["C12_Names", "C12_StartsWithPrefixSep", "C12_ExtDropped", "C12_Injective"]
+    dev = current_dev("MC_C12")
+    res = lib.run_tlc("MC_C12", C12_CFG.format(dev="NoDev", invs="\n".join("INVARIANT " + i for i in invs + ([] if dev else ["Emit"]))))
+    run.add_tlc("MC_C12(Dev={})", res)
+    if dev:
+        res = lib.run_tlc("MC_C12", C12_CFG.format(dev="CurrentDev", invs="INVARIANT Emit"))
+        run.add_tlc("MC_C12(Dev=Current)", res)
+    naming.replay(run, res.lines.get("BEH", []), run.seed, limit=2500 if q else None)
+    run.assumptions += ["module doccomments at indentation 0 (re-indentation belongs to C04)",
+                        "upper-case .CMAKE extensions are not judged for extension dropping"]
+    return ("TLC enumerates run descriptors (file at depth 1-3 incl. dotted/dashed/upper-case names x separator x prefix "
+            "source absent/-p/config x spelling of the input path x directory/single-file mode x @module doccomment "
+            "absent/unnamed/named with/without body x next command documented or not x extension options x header "
+            "lists), checks C12_Names/StartsWithPrefixSep/ExtDropped/Injective on the specification, and replays "
+            "them through the real cminx.main in a sandbox; compared: title with over/underline, the module "
+            "directive (position, count, name, content) and the first entry's doc text")
+
+
 CHECKS = {p: agg_property for p in AGG}
+CHECKS["C12"] = c12
 for _p in ("C13", "C14", "C15"):
     CHECKS[_p] = walk_property
 CHECKS["C20"] = c20
